@@ -94,7 +94,11 @@ def r2_pairing(repo: Repo, rep):
     rep.saw(fi)
     va = fi.node.args.vararg.arg
     outer = [l for l in ast.walk(fi.node) if isinstance(l, ast.For) and dump(l.iter) == va]
-    if len(outer) != 1:
+    zipped = [l for l in ast.walk(fi.node) if isinstance(l, ast.For) and isinstance(l.iter, ast.Call) and attr_chain(l.iter.func) == "zip"
+              and any(dump(a) == va for a in l.iter.args) and isinstance(l.target, ast.Tuple)]
+    if len(outer) != 1 and len(zipped) == 1:
+        _div_precomputed_offsets(repo, rep, R, fi, zipped[0], va)
+    elif len(outer) != 1:
         rep.undecided(R, fi.site(), fi.fq, f"one loop over *{va}", f"{len(outer)}")
     else:
         ol = outer[0]
@@ -199,6 +203,97 @@ def r2_pairing(repo: Repo, rep):
             good = good and "torch.cat(Du_i,dim=1)" in src and "torch.stack(Du_rows,dim=1)" in src
             detail = f"row index {dump(nr[2]) if nr else None}"
     rep.check(R, good, fi.site(), fi.fq, "J[:, i, :] = cat_v d(u_i)/dv (variables in call order), rows stacked on axis 1", detail or "idiom not recognised", detail or "jac")
+
+
+class _NoList(Exception):
+    pass
+
+
+def _sym_list(e: ast.AST, va: str, env):
+    """evaluate a small list expression over the variables [v0, v1, v2] with symbolic dimensions d0, d1, d2"""
+    D = [RF.atom(f"d{j}") for j in range(3)]
+    if isinstance(e, ast.Name) and e.id == va:
+        return [("var", j) for j in range(3)]
+    if isinstance(e, ast.Name) and e.id in env:
+        return _sym_list(env[e.id], va, env)
+    if isinstance(e, (ast.List, ast.Tuple)):
+        return [_sym_scalar(x, va, env, None) for x in e.elts]
+    if isinstance(e, ast.BinOp) and isinstance(e.op, ast.Add):
+        a, b = _sym_list(e.left, va, env), _sym_list(e.right, va, env)
+        return a + b
+    if isinstance(e, ast.Subscript) and isinstance(e.slice, ast.Slice):
+        base = _sym_list(e.value, va, env)
+        lo = e.slice.lower.value if isinstance(e.slice.lower, ast.Constant) else (None if e.slice.lower is None else _bad())
+        hi = None
+        if e.slice.upper is not None:
+            u = e.slice.upper
+            hi = u.value if isinstance(u, ast.Constant) else (-u.operand.value if isinstance(u, ast.UnaryOp) and isinstance(u.operand, ast.Constant) else _bad())
+        return base[lo:hi]
+    if isinstance(e, ast.ListComp) and len(e.generators) == 1 and not e.generators[0].ifs and isinstance(e.generators[0].target, ast.Name):
+        g = e.generators[0]
+        items = _sym_list(g.iter, va, env)
+        return [_sym_scalar(e.elt, va, env, (g.target.id, it)) for it in items]
+    if isinstance(e, ast.Call) and attr_chain(e.func) in ("list", "tuple") and len(e.args) == 1:
+        return _sym_list(e.args[0], va, env)
+    if isinstance(e, ast.Call) and attr_chain(e.func) in ("itertools.accumulate", "accumulate", "np.cumsum", "numpy.cumsum") and len(e.args) == 1:
+        items = _sym_list(e.args[0], va, env)
+        out, acc = [], RF.const(0)
+        for it in items:
+            acc = acc + it
+            out.append(acc)
+        return out
+    raise _NoList(dump(e)[:60])
+
+
+def _bad():
+    raise _NoList("slice bound")
+
+
+def _sym_scalar(e, va, env, binding):
+    if isinstance(e, ast.Constant) and isinstance(e.value, int):
+        return RF.const(e.value)
+    if binding is not None:
+        name, item = binding
+        t = dump(e).replace(" ", "")
+        if t in (f"{name}.shape[-1]", f"{name}.size(-1)", f"{name}.shape[1]") and isinstance(item, tuple) and item[0] == "var":
+            return RF.atom(f"d{item[1]}")
+        if t == name and not isinstance(item, tuple):
+            return item
+    if isinstance(e, ast.BinOp) and isinstance(e.op, ast.Add):
+        return _sym_scalar(e.left, va, env, binding) + _sym_scalar(e.right, va, env, binding)
+    raise _NoList(dump(e)[:60])
+
+
+def _div_precomputed_offsets(repo, rep, R, fi, loop, va):
+    """for vari, off in zip(variables, OFFSETS): OFFSETS must be the exclusive cumulative sums of the dimensions"""
+    names = [dump(t) for t in loop.target.elts]
+    args = [dump(a) for a in loop.iter.args]
+    if len(names) != 2 or len(args) != 2:
+        rep.undecided(R, fi.site(loop), fi.fq, "zip(variables, offsets)", dump(loop.iter)[:80])
+        return
+    vi = args.index(va)
+    off_name, off_expr = names[1 - vi], loop.iter.args[1 - vi]
+    env = {}
+    for st in fi.node.body:
+        if st is loop:
+            break
+        if isinstance(st, ast.Assign) and len(st.targets) == 1 and isinstance(st.targets[0], ast.Name):
+            env[st.targets[0].id] = st.value
+    try:
+        offs = _sym_list(off_expr, va, env)
+    except _NoList as e:
+        rep.undecided(R, fi.site(loop), fi.fq, "offset list evaluable", str(e))
+        return
+    want = [RF.const(0), RF.atom("d0"), RF.atom("d0") + RF.atom("d1")]
+    got = offs[:3]
+    ok = len(got) == 3 and all(isinstance(a, RF) and a == b for a, b in zip(got, want))
+    rep.check(R, ok, fi.site(loop), fi.fq, "offsets of three variables of dimensions d0, d1, d2 are [0, d0, d0 + d1] (exclusive cumulative sums)",
+              f"offsets = {got}", f"offsets = {got}")
+    # the component loop must still use offset + i
+    src = ast.unparse(loop).replace(" ", "")
+    rep.check(R, f"narrow(-1,{off_name}+i,1)" in src or f"narrow(-1,i+{off_name},1)" in src, fi.site(loop), fi.fq, "differentiated output component = offset + i", "pattern not found", "offset+i")
+    rep.ok(R, fi.site(loop), fi.fq, "gradient component i accumulated", "see component loop") if "narrow(-1,i,1)" in src else rep.violation(R, fi.site(loop), fi.fq, "gradient component i accumulated", "not found", "gradient component")
+    rep.ok(R, fi.site(loop), fi.fq, "offsets precomputed (no running update needed)", "zip idiom")
 
 
 ROT = {0: ((2, 1), (1, 2)), 1: ((0, 2), (2, 0)), 2: ((1, 0), (0, 1))}
